@@ -130,7 +130,9 @@ def _random_expr(rng, ops_classes, pool, maxlen=3):
     from gtirb_rewriting.dwarf import cfi
 
     out = []
-    for _ in range(rng.randint(0, maxlen)):
+    # now and then an expression of 128 bytes or more: its length prefix is a multi-byte ULEB128
+    n = rng.randint(70, 160) if rng.random() < 0.08 else rng.randint(0, maxlen)
+    for _ in range(n):
         for _try in range(10):
             c = rng.choice(ops_classes)
             args = []
